@@ -375,7 +375,8 @@ def standard_main(prop, pid, a, seed, t0, extra_results=None):
     # 0. regression corpus (shrunk failures from development and from the sensitivity audit)
     reg_dir = os.path.join(REGRESS, pid)
     reg_n = 0
-    if os.path.isdir(reg_dir):
+    # (VERIF_NO_CORPUS: sensitivity experiments only -- "does the generated search find it without being told?")
+    if os.path.isdir(reg_dir) and not os.environ.get("VERIF_NO_CORPUS"):
         col = Collector(prop)
         for fn in sorted(os.listdir(reg_dir)):
             if fn.endswith(".json"):
